@@ -21,7 +21,8 @@ RULE = (
     "transcripts, or shuffled lines, or an explicit line, or an exon-less transcript. Distinct by hash."
 )
 ASSUMPTIONS = [
-    "every line carries both the gene and the transcript key (GTF spec); a transcript belongs to one gene and its lines share seqid and strand",
+    "every line carries the gene key, and the transcript key unless it is an exon of the gene that belongs to no transcript (then the key is "
+    "absent, never empty); a transcript belongs to one gene and its exon lines share seqid and strand (other lines may be unstranded)",
     "exon coordinates are numeric; gene/transcript ids are distinct from each other and from generated '<featuretype>_<n>' names",
     "children(gene, level=2) may additionally contain the gene's stored transcripts (the statement does not exclude them)",
 ]
@@ -47,13 +48,20 @@ def build(case):
                              "attrs": [[gk, [g["id"]]], [tk, [t["id"]]]], "extras": [], "kind": "transcript", "gene": g["id"], "tx": t["id"]})
             for s in t["subs"]:
                 ft = sub if s["ft"] == "EXON" else s["ft"]
-                r = {"cols": [g["seqid"], "src", ft, str(s["start"]), str(s["end"]), ".", g["strand"], s.get("frame", ".")],
+                # a line that is not of the subfeature type may be unstranded: the derived features follow the exons
+                strand_ = "." if (s.get("dot_strand") and s["ft"] != "EXON") else g["strand"]
+                r = {"cols": [g["seqid"], "src", ft, str(s["start"]), str(s["end"]), ".", strand_, s.get("frame", ".")],
                      "attrs": [[gk, [g["id"]]], [tk, [t["id"]]]] + ([["note", [s["note"]]]] if s.get("note") else []),
                      "extras": [], "kind": "sub", "gene": g["id"], "tx": t["id"]}
                 recs.append(r)
                 if s["ft"] == "EXON":
                     tm_["exons"].append((s["start"], s["end"]))
                     gm["exons"].append((s["start"], s["end"]))
+        for o in g.get("orphans", []):
+            # an exon that belongs to the gene but to no transcript (no transcript key on the line)
+            recs.append({"cols": [g["seqid"], "src", sub, str(o["start"]), str(o["end"]), ".", g["strand"], "."],
+                         "attrs": [[gk, [g["id"]]], ["orphan", ["no transcript"]]], "extras": [], "kind": "sub", "gene": g["id"], "tx": None})
+            gm["exons"].append((o["start"], o["end"]))
     recs = [recs[i] for i in case["order"]]
     return recs, model
 
@@ -62,6 +70,7 @@ def nlines(genes):
     n = 0
     for g in genes:
         n += 1 if g["explicit"] else 0
+        n += len(g.get("orphans", []))
         for t in g["transcripts"]:
             n += (1 if t["explicit"] else 0) + len(t["subs"])
     return n
@@ -102,10 +111,16 @@ class GtfLeg(object):
                         t["subs"].append({"ft": draw(st.sampled_from(["CDS", "start_codon", "UTR", "exon" if custom else "block"])),
                                           "start": a, "end": a + draw(st.integers(0, 900)),
                                           "frame": draw(st.sampled_from([".", "0", "1"])),
-                                          "note": draw(st.sampled_from(["", "x y"]))})
+                                          "note": draw(st.sampled_from(["", "x y"])),
+                                          "dot_strand": draw(st.integers(0, 3)) == 0})
                     if not t["subs"] and not t["explicit"]:
                         t["subs"].append({"ft": "CDS", "start": 5, "end": 9})
                     g["transcripts"].append(t)
+                if draw(st.integers(0, 4)) == 0 and any(s_["ft"] == "EXON" for t_ in g["transcripts"] for s_ in t_["subs"]):
+                    g["orphans"] = []
+                    for _ in range(draw(st.integers(1, 2))):
+                        a = draw(st.integers(1, 14000))
+                        g["orphans"].append({"start": a, "end": a + draw(st.integers(0, 500))})
                 genes.append(g)
             n = nlines(genes)
             shuffled = draw(st.booleans())
@@ -138,6 +153,8 @@ class GtfLeg(object):
             labels.append("first-import-with-inference-off")
         if case.get("merge_strategy"):
             labels.append("merge_strategy=" + case["merge_strategy"])
+        if any(g.get("orphans") for g in case["genes"]):
+            labels.append("exon-without-transcript")
         for name, flag in (("multi-transcript", multi_tx), ("shuffled", shuffled), ("explicit-line", explicit),
                            ("exonless-transcript", exonless), ("custom-keys", case["custom"])):
             if flag:
